@@ -29,7 +29,7 @@ pub(crate) struct IcmpDatagram {
     pub message: icmp_utils::Message,
 }
 
-#[derive(Debug, Clone)]
+#[derive(Clone)]
 pub(crate) struct TcpConnectionMeta {
     /// Address of a VPN client made the connection request
     pub client_address: IpAddr,
@@ -147,6 +147,22 @@ impl From<&downstream::UdpDatagramMeta> for UdpDatagramMeta {
             source: x.source,
             destination: x.destination,
         }
+    }
+}
+
+impl Debug for TcpConnectionMeta {
+    fn fmt(&self, f: &mut Formatter<'_>) -> std::fmt::Result {
+        // credentials (and the SNI, which may carry them) must not reach the log
+        f.debug_struct("TcpConnectionMeta")
+            .field("client_address", &self.client_address)
+            .field("destination", &self.destination)
+            .field("auth", &self.auth.as_ref().map(|_| "scrubbed"))
+            .field(
+                "tls_domain",
+                &crate::net_utils::scrub_sni(self.tls_domain.clone()),
+            )
+            .field("user_agent", &self.user_agent)
+            .finish()
     }
 }
 
